@@ -74,9 +74,9 @@ def node_step(k: int, n: int, nch: int, r0: bool, r1: bool, r2: bool, r3: bool, 
 
 # ---------------------------------------------------------------------------------------------
 # API templates: concrete texts through the real SqParser.eval, symbolic budget / host data
-from sqv.api import PARSER, count_nodes, run_eval, Probe, prewarm  # noqa
+from sqv.api import PARSER, CACHED, count_nodes, run_eval, Probe, prewarm  # noqa
 if isinstance(hlib.PARAM, dict):
-    prewarm(hlib.PARAM.get("text"), hlib.PARAM.get("define"), hlib.PARAM.get("use"))
+    prewarm(hlib.PARAM.get("text"), hlib.PARAM.get("define"), hlib.PARAM.get("use"), "v => v + a", "a + b")
 
 
 def api_forward(n: int, a: int, b: int, c: bool) -> None:
@@ -214,4 +214,31 @@ def cross_eval(n1: int, n2: int, a: int, j: int) -> None:
         assert out2[0] == 'ok', "cross-eval lambda: later eval failed although its own node evaluations < its budget"
     else:
         assert out2[0] == 'err' and out2[1] is OpsLimit, "cross-eval lambda: later eval exceeded its own budget without error"
+    hlib.done()
+
+
+AST_NAMES = {"g": "v => v + a", "k": "a + b"}
+
+
+def api_ast_names(n: int, a: int, b: int, l: List[int]) -> None:
+    """
+    pre: n >= 1 and len(l) <= 3
+    post: True
+    """
+    # eval(..., ast_names=...): pre-parsed definitions are evaluated by the same call and count against ITS budget,
+    # and so do lambdas they define
+    hlib.enter(locals())
+    text = hlib.PARAM["text"]
+    astn = {k: CACHED.parse(v) for k, v in AST_NAMES.items()}
+    api_reset()
+    try:
+        CACHED.eval(text, {'a': a, 'b': b, 'l': list(l)}, ast_names=astn, max_ops_evaluated=n)
+        out = ('ok',)
+    except Exception as e:
+        out = ('err', type(e))
+    started = api_count()
+    if out[0] == 'err' and out[1] is OpsLimit:
+        assert started == n, "ops-limit error raised at an operation other than the N-th (ast_names)"
+    else:
+        assert started < n, "run with ast_names returned (or failed otherwise) after starting N or more operations"
     hlib.done()
